@@ -60,6 +60,29 @@ func (k OpKind) String() string {
 // Models of blocking primitives. The scheduler decides eligibility from these
 // and never lets a task block on a real lock.
 
+// WallStep is one step of the wall clock in a run's fault plan.
+type WallStep struct{ At, Delta time.Duration }
+
+// WallClock returns, for the current run, by how much the wall clock has been
+// stepped so far, a monotonic reading (time since the run began, plus one
+// second so that it is never zero), and whether the run has wall-clock steps
+// at all.
+//
+//go:norace
+func WallClock() (skew, mono time.Duration, on bool) {
+	s := cur
+	if s == nil || len(s.Cfg.WallSteps) == 0 {
+		return 0, 0, false
+	}
+	el := time.Since(s.start)
+	for _, w := range s.Cfg.WallSteps {
+		if w.At <= el {
+			skew += w.Delta
+		}
+	}
+	return skew, el + time.Second, true
+}
+
 // MutexModel is the scheduler's view of a Mutex.
 type MutexModel struct{ Held bool }
 
@@ -147,6 +170,9 @@ type Config struct {
 	PAdvance    int             // per-mille chance to advance the clock although tasks are enabled
 	Quanta      []time.Duration // clock advance menu
 	MaxSteps    int             // soft cap; afterwards fair scheduling without clock preemption
+	// WallSteps are steps of the wall clock (not of the monotonic clock): from
+	// simulated time At on, simtime.Now reports a wall reading moved by Delta.
+	WallSteps []WallStep
 	// Progress, if set, returns a number that grows whenever the run does
 	// something the outside can see (an operation of the workload returns, the
 	// code under test calls a reporter or sends a datagram). Under the fair
